@@ -1,8 +1,10 @@
 package unit
 
 import (
+	"encoding/hex"
 	"errors"
 	"fmt"
+	"strings"
 	"testing"
 
 	spb "google.golang.org/genproto/googleapis/rpc/status"
@@ -43,7 +45,17 @@ func genC11Err(t *rapid.T) c11ErrCase {
 	for i := 0; i < n; i++ {
 		k := rapid.SampledFrom([]string{"fmt", "fmt", "join-before", "join-after", "struct"}).Draw(t, "wrap")
 		if k == "fmt" {
-			k = "fmt:" + rapid.StringMatching(`[a-z %:]{0,12}`).Draw(t, "text")
+			switch rapid.IntRange(0, 5).Draw(t, "textKind") {
+			case 0:
+				// any bytes: a wrapping text may quote a path or a piece of a key, and nothing says it is valid UTF-8
+				k = "fmthex:" + hex.EncodeToString(rapid.SliceOfN(rapid.Byte(), 1, 12).Draw(t, "textBytes"))
+			case 1:
+				k = "fmthex:" + hex.EncodeToString([]byte(rapid.SampledFrom([]string{"\xff", "caf\xc3", "/srv/d\xe9p\xf4t", "\xf0\x9f\x98", "a\x00b", "\xed\xa0\x80"}).Draw(t, "hostileText")))
+			case 2:
+				k = "fmthex:" + hex.EncodeToString([]byte(rapid.String().Draw(t, "anyText")))
+			default:
+				k = "fmt:" + rapid.StringMatching(`[a-z %:]{0,12}`).Draw(t, "text")
+			}
 		}
 		c.Wraps = append(c.Wraps, k)
 	}
@@ -63,6 +75,9 @@ func buildErr(c c11ErrCase) error {
 			err = errors.Join(err, errors.New("unrelated"))
 		case w == "struct":
 			err = structErr{err}
+		case strings.HasPrefix(w, "fmthex:"):
+			b, _ := hex.DecodeString(w[7:])
+			err = fmt.Errorf("%s: %w", b, err)
 		default:
 			err = fmt.Errorf("%s: %w", w[4:], err)
 		}
@@ -84,7 +99,9 @@ func overTheWire(err error) error {
 	st, _ := status.FromError(err)
 	b, merr := proto.Marshal(st.Proto())
 	if merr != nil {
-		panic(merr)
+		// what grpc-go's transport does when the status cannot be marshalled (a string field that is not
+		// valid UTF-8): it logs, leaves the details out and sends code and message alone
+		return status.New(st.Code(), st.Message()).Err()
 	}
 	var p spb.Status
 	if uerr := proto.Unmarshal(b, &p); uerr != nil {
